@@ -204,6 +204,9 @@ func ExecSt(c StCase) (res core.Result) {
 			}
 		}
 	}
+	logMu.Lock()
+	setupCalls = map[string]int{}
+	logMu.Unlock()
 	srv, err := server.Start(conf)
 	close(stopProbe)
 	pwg.Wait()
@@ -225,6 +228,23 @@ func ExecSt(c StCase) (res core.Result) {
 	defer srv.Close()
 	ids4, _ := expectLoad(c.O.L4, false)
 	ids6, _ := expectLoad(c.O.L6, true)
+	// "the handlers instantiated are exactly the listed plugins": one instance per listed plugin and
+	// protocol, however many addresses the server listens on (all listeners share the chain)
+	for _, x := range []struct {
+		proto int
+		ids   []int
+		n     int
+	}{{4, ids4, c.N4}, {6, ids6, c.N6}} {
+		for _, i := range x.ids {
+			logMu.Lock()
+			n := setupCalls[fmt.Sprintf("%d/%d.%d", x.proto, x.proto, i)]
+			logMu.Unlock()
+			if n != 1 {
+				res.Viol = core.Violate("C13/start/plugin-instantiated-more-than-once", "server.Start with %d DHCPv%d listen addresses: plugin #%d of the DHCPv%d section was set up %d times, it is listed once", x.n, x.proto, i, x.proto, n)
+				return
+			}
+		}
+	}
 	res.Classes = []string{"started"}
 	res.NonTrivial = c.N4+c.N6 >= 2
 	xid := uint32(0x57a70000)
